@@ -243,6 +243,19 @@ class C16(Campaign):
         for c, m in base["cbs"].items():
             if rnd.random() < 0.25:
                 m["async"] = True
+        async_role = None
+        if rnd.random() < 0.15:
+            # the only coroutine callbacks of the class live on ONE listener class (naming-convention
+            # callbacks, so nothing has to be resolved on it): instances that attach it run on the async
+            # engine, instances that do not stay synchronous
+            async_role = "LA"
+            base["listeners"].append(async_role)
+            for m in base["cbs"].values():
+                m.pop("async", None)
+            for nm, grp in rnd.sample([("after_transition", "after"), ("on_enter_state", "enter"),
+                                       ("before_transition", "before")], rnd.randint(1, 2)):
+                base["cbs"][f"{async_role}.{nm}"] = {"group": grp, "sig": [gen.P("event"), gen.P("kw", "varkw")],
+                                                     "async": True}
         programs = [base]
         kinds = []
         for i in range(rnd.randint(1, 3)):
@@ -282,6 +295,14 @@ class C16(Campaign):
             ops[0]["prog"] = pi
             if is_async:
                 ops[0]["rtc"] = True
+            if pi == 0 and async_role is not None:
+                # instances of the class alternate between attaching that listener and not attaching it
+                n_same = sum(1 for q in programs[:i + 1] if q is None or q is base)
+                if (n_same + (1 if base["name"] < async_role else 0)) % 2 == 0:
+                    ops[0]["listeners"] = [x for x in ops[0].get("listeners", []) if x != async_role]
+                else:
+                    ops[0]["listeners"] = [x for x in ops[0].get("listeners", []) if x != async_role] + [async_role]
+                    ops[0]["rtc"] = True
             if p is None and rnd.random() < 0.3:
                 # an instance of the victim class built WITHOUT the user's model and listeners: if the class
                 # refers to names only they provide, the constructor must refuse it (InvalidDefinition) --
